@@ -377,6 +377,14 @@ step_sanitise_unjudged(vh_rng *rg, const char *ctx0)
     }
     for (int ar = 0; ar < d->nareas; ar++)
         memcpy(inst.store[ar], inst.model[ar], 2 * (size_t)d->area[ar].size);
+    /* one thing is demanded even here: a sanitise that reports success has cleared every touched mark, wherever
+     * the register lies */
+    if (a.code == REG_ACCESS_SUCCESS)
+        for (int i = 0; i < inst.d.nregs; i++)
+            if (register_was_touched(&inst.t, (RegisterHandle)i)) {
+                vh_fail("touched-mark", "step=sanitise-unjudged", "%s: sanitise reports success, register %d is still marked as touched", ctx0, i);
+                break;
+            }
     for (int i = 0; i < inst.d.nregs; i++)
         inst.touched[i] = register_was_touched(&inst.t, (RegisterHandle)i);
     if (a.code == REG_ACCESS_SUCCESS)
@@ -473,6 +481,20 @@ history_body(uint64_t idx, vh_rng *rgp)
             step_sanitise_unjudged(&rg, c);
         else
             step_sanitise(c, 0);
+        if ((s % 11) == 5 && inst.d.nregs > 0) {
+            /* the marks are also set and cleared by hand (public inline functions), on any register - among them
+             * registers no checked operation could ever mark, in areas that cannot be written */
+            int ti = (int)((s * 7u + (unsigned)idx) % (unsigned)inst.d.nregs);
+            if (s & 2u) {
+                register_touch(&inst.t, (RegisterHandle)ti);
+                inst.touched[ti] = 1;
+            } else {
+                register_untouch(&inst.t, (RegisterHandle)ti);
+                inst.touched[ti] = 0;
+            }
+            VH_COUNT("step: touched mark set or cleared by hand");
+            observe("touch", c);
+        }
         if ((s % 7) == 3)
             bystander_step(c);
         if (*vh_nfail != f0) {
